@@ -19,27 +19,28 @@ func TestMain(m *testing.M) { vf.Main(m) }
 
 // Signatures of this property (root causes, not inputs).
 const (
-	sigBelowMin      = "C20/cwnd/below-minimum"
-	sigBelowMinMTU   = "C20/cwnd/below-minimum-after-mtu-increase"
-	sigAboveMax      = "C20/cwnd/above-maximum"
-	sigAckLowers     = "C20/cwnd/ack-lowers-window"
-	sigAckLowersCub  = "C20/cwnd/ack-lowers-window-cubic-overflow"
-	sigAckLowersMTU  = "C20/cwnd/ack-lowers-window-cubic-after-mtu-increase"
-	sigNonLossLowers = "C20/cwnd/lowered-without-loss"
-	sigLossGrows     = "C20/cwnd/loss-increases-window"
-	sigTwice         = "C20/recovery/second-reduction-in-window"
-	sigAppLimited    = "C20/cwnd/growth-while-not-window-limited"
-	sigCanSend       = "C20/cansend/not-equivalent-to-below-window"
-	sigMTUShrinks    = "C20/mtu/window-lowered"
-	sigInterval      = "C20/pacing/interval-bound-exceeded"
-	sigBudgetCap     = "C20/pacing/budget-above-burst-cap"
-	sigBudgetNeg     = "C20/pacing/budget-negative-or-wrapped"
-	sigBurstCap      = "C20/pacing/burst-cap-out-of-range"
-	sigTUSBeforeSend = "C20/pacing/time-until-send-before-last-send"
-	sigTUSZero       = "C20/pacing/time-until-send-zero-without-budget"
-	sigTUSNonZero    = "C20/pacing/time-until-send-set-although-budget-available"
-	sigTUSEarly      = "C20/pacing/timer-expires-before-budget-available"
-	sigTUSDivZero    = "C20/pacing/time-until-send-divides-by-zero-bandwidth"
-	sigSendAny       = "C20/sendmode/send-any-at-or-above-window"
-	sigSPHError      = "C20/sendmode/harness-precondition"
+	sigBelowMin        = "C20/cwnd/below-minimum"
+	sigBelowMinMTU     = "C20/cwnd/below-minimum-after-mtu-increase"
+	sigAboveMax        = "C20/cwnd/above-maximum"
+	sigAckLowers       = "C20/cwnd/ack-lowers-window"
+	sigAckLowersCub    = "C20/cwnd/ack-lowers-window-cubic-overflow"
+	sigAckLowersMTU    = "C20/cwnd/ack-lowers-window-cubic-after-mtu-increase"
+	sigAckLowersMinRTT = "C20/cwnd/ack-lowers-window-cubic-min-rtt-decrease"
+	sigNonLossLowers   = "C20/cwnd/lowered-without-loss"
+	sigLossGrows       = "C20/cwnd/loss-increases-window"
+	sigTwice           = "C20/recovery/second-reduction-in-window"
+	sigAppLimited      = "C20/cwnd/growth-while-not-window-limited"
+	sigCanSend         = "C20/cansend/not-equivalent-to-below-window"
+	sigMTUShrinks      = "C20/mtu/window-lowered"
+	sigInterval        = "C20/pacing/interval-bound-exceeded"
+	sigBudgetCap       = "C20/pacing/budget-above-burst-cap"
+	sigBudgetNeg       = "C20/pacing/budget-negative-or-wrapped"
+	sigBurstCap        = "C20/pacing/burst-cap-out-of-range"
+	sigTUSBeforeSend   = "C20/pacing/time-until-send-before-last-send"
+	sigTUSZero         = "C20/pacing/time-until-send-zero-without-budget"
+	sigTUSNonZero      = "C20/pacing/time-until-send-set-although-budget-available"
+	sigTUSEarly        = "C20/pacing/timer-expires-before-budget-available"
+	sigTUSDivZero      = "C20/pacing/time-until-send-divides-by-zero-bandwidth"
+	sigSendAny         = "C20/sendmode/send-any-at-or-above-window"
+	sigSPHError        = "C20/sendmode/harness-precondition"
 )
